@@ -35,13 +35,21 @@ ASSUMPTIONS = ["Precision.Double (casting an in-bounds x0 to float32 can leave t
 
 
 def strategy(tier):
-    return SC.solve_case(
-        families=("nlp", "nlp", "degenerate", "infeasible", "qp", "patternvar", "intbox", "concavebox"),
-        max_n=4 if tier == "quick" else 6,
-        max_m=3,
-        scalings=("none", "none", "custom", "custom", "nominal"),
-        iteration_limit=120 if tier == "quick" else 400,
-    )
+    @st.composite
+    def _s(draw):
+        case = draw(SC.solve_case(
+            families=("nlp", "nlp", "degenerate", "infeasible", "qp", "patternvar", "intbox", "concavebox"),
+            max_n=4 if tier == "quick" else 6,
+            max_m=3,
+            scalings=("none", "none", "custom", "custom", "nominal"),
+            iteration_limit=120 if tier == "quick" else 400,
+        ))
+        # a caller that prepares several solvers with one weight buffer: the arrays handed to Scaling(...) are
+        # overwritten in place after the Solver exists and before solve() is called
+        case["reuse_weight_buffer"] = draw(st.booleans())
+        return case
+
+    return _s()
 
 
 def check(case):
@@ -58,6 +66,11 @@ def check(case):
         return excluded(f"build:{type(e).__name__}", labels)
     rec.clear()
     rec.returned = []
+    bufs = getattr(getattr(params, "scaling", None), "_vf_caller_buffers", None)
+    if case.get("reuse_weight_buffer") and bufs is not None:
+        for a in bufs:
+            a[:] = a + 3
+        labels.append("weight_buffer_overwritten_after_init")
     out = run_solve(rec, params, x0, y0, solver=solver)
     nevals = len(rec.log)
     bad = [(name, x, fr) for (name, x, inb, fr) in rec.log if not inb]
